@@ -321,3 +321,44 @@ Proof.
   repeat split; try (vm_compute; reflexivity);
     intros k Hk; simpl in Hk; repeat (destruct Hk as [<-|Hk]; [simpl; discriminate|]); destruct Hk.
 Qed.
+
+(* ------------------------------------------------------------------ *)
+(* the built-in format dialects AS READ FROM THE SOURCE (kernel K13C: format_dialect_options), completed with
+   Sentinel.MISSING for the options they do not set *)
+Definition complete_ns (os: list (string * kv)) : dialect_ns :=
+  map (fun k => (k, match ns_get os k with Some v => v | None => KMissing end)) merge_loop_keys.
+
+Lemma ns_get_complete os k : In k merge_loop_keys -> ns_get (complete_ns os) k <> None.
+Proof.
+  unfold complete_ns. induction merge_loop_keys as [|k0 r IH]; simpl; [tauto|].
+  intros [->|Hin]; [rewrite String.eqb_refl; discriminate|].
+  destruct (String.eqb k0 k); [discriminate|apply IH; exact Hin].
+Qed.
+
+Lemma complete_has_keys os : has_keys merge_loop_keys (complete_ns os).
+Proof. intros k Hk. apply ns_get_complete. exact Hk. Qed.
+
+Definition builtin_dialects : list (string * dialect_ns) :=
+  map (fun p => (fst p, complete_ns (snd p))) format_dialect_options.
+
+Section BuiltinTheorems.
+  Context {D: Type}.
+  Variable doc : val -> res D.
+
+  (* for every built-in dialect the source defines, every user dialect given as its set options, every shape *)
+  Theorem format_agree_builtin name fd xs E t v :
+    In (name, fd) builtin_dialects -> ns_wf (complete_ns xs) = true ->
+    no_lookalike_union E t = true -> dialect_compat_o E (opts_of (complete_ns xs)) = true -> names_ok E = true ->
+    exact E v t = true ->
+    fmt_encode doc EMixin E fd (Some (complete_ns xs)) t v = fmt_encode doc ECodec E fd (Some (complete_ns xs)) t v.
+  Proof.
+    intros Hin Hwf Hl Hc Hn Hex. unfold builtin_dialects in Hin. apply in_map_iff in Hin.
+    destruct Hin as [[n os] [Heq _]]. inversion Heq; subst.
+    apply (format_agree_dialect doc); try assumption; apply complete_has_keys.
+  Qed.
+End BuiltinTheorems.
+
+(* TOML's omit_none is among them (non-vacuity of the built-in table w.r.t. the modelled options) *)
+Example builtin_toml_omit_none :
+  exists fd, In ("TOMLDialect", fd) builtin_dialects /\ opts_of fd = mkO None (Some true).
+Proof. eexists. split; [vm_compute; right; right; left; reflexivity|vm_compute; reflexivity]. Qed.
